@@ -256,6 +256,8 @@ def run(ctx: Ctx) -> None:
                 ctx.mismatch("escapeHtml: implementation and model differ", {"input": s_, "impl": escapeHtml(s_), "model": g})
         from . import rxtie
         rxtie.tie_leaf(ctx, drv, quick)      # translated regular expressions + inline leaf rules (autolink, html_inline, entity)
+        from . import pipeline
+        pipeline.tie_full(ctx, drv, 2000 if quick else 60000)     # MarkdownIt.parse end to end on the modelled sub-language
     finally:
         drv.close()
     ctx.partial += [
